@@ -957,10 +957,9 @@ func _recover(n *node) {
 func _panic(n *node) {
 	value := genValue(n.child[1])
 
-	n.exec = func(f *frame) bltn {
-		// Raise the panic with the value itself, not with the reflect.Value holding
-		// it, so that recover() and interp.Panic.Value yield the original value.
-		v := value(f)
+	// Raise the panic with the value itself, not with the reflect.Value holding
+	// it, so that recover() and interp.Panic.Value yield the original value.
+	raise := func(v reflect.Value) {
 		for v.IsValid() {
 			vi, ok := v.Interface().(valueInterface)
 			if !ok {
@@ -972,6 +971,24 @@ func _panic(n *node) {
 			panic(v)
 		}
 		panic(v.Interface())
+	}
+
+	if n.anc.kind == deferStmt {
+		// A deferred panic is raised when the function ends, not at the defer
+		// statement, with the operand evaluated at the defer statement.
+		next := getExec(n.tnext)
+		n.exec = func(f *frame) bltn {
+			v := copyValue(value(f))
+			fn := reflect.ValueOf(func() { raise(v) })
+			f.deferred = append([][]reflect.Value{{fn}}, f.deferred...)
+			return next
+		}
+		return
+	}
+
+	n.exec = func(f *frame) bltn {
+		raise(value(f))
+		return nil
 	}
 }
 
